@@ -34,9 +34,13 @@ def stress_api(variant):
     # equal short resource type names under different domains (equal sort keys), plus more resources
     main['messages'].append(dict(name='Tome', fields=[dict(name='name')], resource=dict(type='other.example.com/Book', patterns=['tomes/{tome}'])))
     main['messages'].append(dict(name='Zine', fields=[dict(name='name')], resource=dict(type='lib.example.com/Zine', patterns=['zines/{zine}'])))
+    # ... and resource types that differ ONLY in case (they tie under a case-insensitive sort)
+    main['messages'].append(dict(name='Folio', fields=[dict(name='name')], resource=dict(type='lib.example.com/Folio', patterns=['folios/{folio}'])))
+    main['messages'].append(dict(name='FolioUpper', fields=[dict(name='name')], resource=dict(type='lib.example.com/FOLIO', patterns=['bigfolios/{folio}'])))
     main['messages'].append(dict(name='Atlas', fields=[dict(name='name')], resource=dict(type='lib.example.com/Atlas', patterns=['atlases/{atlas}', 'shelves/{shelf}/atlases/{atlas}'])))
     book = [m for m in main['messages'] if m['name'] == 'Book'][0]
     book['fields'] += [dict(name='tome', type='Tome'), dict(name='zine', type='Zine'), dict(name='atlas', type='Atlas'),
+                       dict(name='folio', type='Folio'), dict(name='folio_upper', type='FolioUpper'),
                        dict(name='trace_id', uuid4=True)]        # a UUID4-format field in a RESPONSE (its mock value is printed into the emitted tests)
     codes = ['UNAVAILABLE', 'DEADLINE_EXCEEDED', 'ABORTED', 'INTERNAL', 'RESOURCE_EXHAUSTED', 'UNKNOWN']
     api['retry'] = {'methodConfig': [
